@@ -76,16 +76,27 @@ def _run_parallel(jobs):
     return out
 
 
-def _fam_cfg(ctx, tier_cfg, fam):
-    """one TLC run per family: the .cfg is the committed one with `Fams` narrowed"""
+def _fam_cfg(ctx, tier_cfg, fam, override=()):
+    """one TLC run per family (or group "a+b" of small families): the .cfg is the committed one with `Fams`
+    narrowed; override: definitions replaced by deliberately wrong ones (fault runs)"""
     with open(os.path.join(SPECS, tier_cfg)) as f:
         txt = f.read()
     if "Fams <- AllFams" not in txt:
         raise MachineryError("unexpected cfg layout in " + tier_cfg)
-    p = os.path.join(ctx.subdir("cfg"), "%s_%s" % (fam, tier_cfg))
+    tag = fam + ("_fault" if override else "")
+    p = os.path.join(ctx.subdir("cfg"), "%s_%s" % (tag, tier_cfg))
     with open(p, "w") as f:
-        f.write(txt.replace("Fams <- AllFams", 'Fams = {"%s"}' % fam))
+        f.write(txt.replace("Fams <- AllFams", "Fams = {%s}" % ", ".join('"%s"' % x for x in fam.split("+"))
+                            + "".join("\n  %s <- %s" % kv for kv in override)))
     return p
+
+
+# families that share a TLC run (JVM start-up dominates the small ones)
+FAM_GROUPS = {"tg": "tg+tgu", "tgu": "tg+tgu", "ctm": "ctm+trnid", "trnid": "ctm+trnid"}
+# deliberately wrong definitions that the design invariants of a family must reject (non-vacuity of the
+# universes: a tier spanning "first listed .. last listed", a reader stripping the utterance id)
+FAULTS = {"tgu": ((("TguLo", "TguLoFirstListed"), ("TguHi", "TguHiLastListed")), "TguRoundTrip"),
+          "trnid": ((("ReadId", "ReadIdStripping"),), "TrnIdRoundTrip")}
 
 
 def _tok8_cfg(ctx, tier_cfg):
@@ -107,7 +118,17 @@ def _tok8_cfg(ctx, tier_cfg):
 
 def transcripts_jobs(ctx, fams):
     cfg = "Transcripts_quick.cfg" if ctx.quick else "Transcripts_thorough.cfg"
-    jobs = [("Transcripts/" + fam, TR_MOD, _fam_cfg(ctx, cfg, fam), dict(workers=4, timeout=1500)) for fam in fams]
+    groups = []
+    for fam in fams:
+        g = FAM_GROUPS.get(fam, fam)
+        g = "+".join(x for x in g.split("+") if x in fams)
+        if g not in groups:
+            groups.append(g)
+    jobs = [("Transcripts/" + g, TR_MOD, _fam_cfg(ctx, cfg, g), dict(workers=4, timeout=1500)) for g in groups]
+    for fam in fams:
+        if fam in FAULTS:  # (always on the quick universe: a counterexample is all that is wanted)
+            jobs.append(("TranscriptsFault/" + fam, TR_MOD, _fam_cfg(ctx, "Transcripts_quick.cfg", fam, FAULTS[fam][0]),
+                         dict(workers=2, timeout=600, coverage=False)))
     if "tok" in fams:
         jobs.append(("Transcripts/tok8", TR_MOD, _tok8_cfg(ctx, cfg), dict(workers=4, timeout=1500)))
     return jobs
@@ -128,20 +149,28 @@ def run_all(ctx, fams, pool=True, extra_jobs=()):
     res = _run_parallel(jobs)
     recs = {}
     for name, r in sorted(res.items()):
+        if name.startswith("TranscriptsFault/"):
+            want = FAULTS[name.split("/")[1]][1]
+            if r.ok or ("Invariant %s is violated" % want) not in (r.error or ""):
+                raise MachineryError("%s: the deliberately wrong definition was not rejected by %s (%s)"
+                                     % (name, want, r.error))
+            ctx.add_tlc("%s (expected violation of %s)" % (name, want), r, count_states=False)
+            continue
         tlc.require_ok(r, name)
         ctx.add_tlc(name, r)
         if name.startswith("Transcripts/"):
             fam = name.split("/")[1]
             tlc.require_covered(r, ["Init", "Prepare"] + (TRN_ACTIONS if fam == "trn" else []), name)
             these = sorted(r.records, key=lambda x: repr(x))
-            if not these:
-                raise MachineryError("no cases exported for " + name)
             if fam == "tok8":
                 for x in these:
                     x["upm"] = 8  # units per millisecond
-                fam = "tok"
-            recs.setdefault(fam, [])
-            recs[fam] += these
+            for f in (["tok"] if fam == "tok8" else fam.split("+")):
+                mine = [x for x in these if x["fam"] == f]
+                if not mine:
+                    raise MachineryError("no %s cases exported for %s" % (f, name))
+                recs.setdefault(f, [])
+                recs[f] += mine
         elif name.startswith("WorkerPool/"):
             tlc.require_covered(r, WP_ACTIONS, name)
     schedules = None
